@@ -25,6 +25,10 @@ P = {
          "partial."),
  "C10": ("Theorems (by computation): every argument-taking built-in pre-loads 'skip ws/comments, expect ( on its channel' on top and 'expect )' at the bottom; every macro keyword has a dispatch arm; ';'-terminated statements pre-load the ';' expectation. Balance of string expressions, datalines triples, label colons over all inputs (incl. every truncation of a sample program) is tested by the oracle.",
          "partial."),
+ "C12": ("Theorem C12_empty_statements (no axioms): for every n, the program of n empty statements lexes (release profile) without error into n SEMI tokens + EOF and ends in the initial open-code configuration; its step lemma holds from any open-code state (symbolic execution of the handler + induction). Programs sampled from the whole construct grammar must lex without error and end in the initial configuration (implementation and model, compared byte for byte).",
+         "partial (sub-grammar): one production proved, the grammar-wide statement tested."),
+ "C13": ("Theorems (no axioms, every state, both profiles): in the argument-value scanner '(' and nested ')' only move the parenthesis counter, ',' is text while the counter is non-zero and ends the argument at zero, ')' ends it only at zero; every argument-taking built-in pre-loads its parentheses. Delimiter, operator, integer-operand and gap positions are tested on sampled grammar programs with recorded positions.",
+         "partial: step lemmas and tables proved; grammar-wide positions tested; expression gaps next to operands are whitespace-only in the sampler (documented limitation of the crate)."),
  "C14": ("Theorems (no axioms): the constructs of the C14 list pre-load an expectation mode for their mandatory delimiter; in an ExpectSymbol expectation with a different next character (or at end of input) the lexer records the matching MissingExpected error at the current position, adds a zero-width token of the expected type/channel and pops the mode (all states, release profile; debug via C19). Every single-delimiter deletion in sampled grammar programs is tested for exactly this error and token at the expected offset.",
          "partial: grammar-wide statement tested; the recovery step and pre-loads proved."),
  "C16": ("Theorems (no axioms, all inputs): keyword lookup after upper-casing, the macro keyword scanner, the statement look-ahead and the mnemonic recogniser are invariant under ASCII case change. Whole-lexer invariance is tested on random/extreme variants of every input and all (or sampled) 2^n variants of keyword/mnemonic/suffix templates.",
